@@ -57,7 +57,7 @@ npy_intp fix_offset(const ExtendMode mode, npy_intp cc, const npy_intp len) {
             } else {
                 int sz2 = 2 * len;
                 if (cc < -sz2)
-                    cc = sz2 * (int)(-cc / sz2) + cc;
+                    cc = sz2 * (int)((-cc - 1) / sz2) + cc;
                 cc = cc < -len ? cc + sz2 : -cc - 1;
             }
         } else if (cc >= len) {
